@@ -318,8 +318,10 @@ class CircuitCompositeOperation(ICircuitCompositeOperation):
         :return: Modified self.
         """
         flatten_circuit_graph: CircuitGraphBranch = CircuitGraphBranch()
-        for operation in tqdm(self.decomposed_operations(), desc="Flatten Circuit Graph"):
-            # Relation to a (removed) composite-operation is transferred to the operations it contains
+        operations: List[ICircuitOperation] = self.decomposed_operations()
+        # Relation to a (removed) composite-operation is transferred to the operations it contains.
+        # (All relations are transferred before the graph is rebuilt, rebuilding can reset individual relation links)
+        for operation in operations:
             reference_node: Optional[ICircuitOperation] = operation.relation_link.reference_node
             if isinstance(reference_node, CircuitCompositeOperation) and len(reference_node.decomposed_operations()) > 0:
                 relation_type: RelationType = operation.relation_link.relation_type
@@ -331,6 +333,7 @@ class CircuitCompositeOperation(ICircuitCompositeOperation):
                         _relation_to_group=MultiRelationType.LATEST,
                         _relation_type=relation_type,
                     )
+        for operation in tqdm(operations, desc="Flatten Circuit Graph"):
             CircuitGraphBranch.add_to_graph(
                 graph=flatten_circuit_graph,
                 operation=operation,
